@@ -163,7 +163,7 @@ let () =
                  | [s; e; z; t; b] -> ((((n_of_int (int_of_string s), n_of_int (int_of_string e)), bytes_of_hex z), bytes_of_hex b), bytes_of_hex t)
                  | _ -> failwith "part") (String.split_on_char ',' parts) in
       let r = { pr_version = bytes_of_string "HTTP/1.1"; pr_status = n_of_int (int_of_string code); pr_reason = bytes_of_hex rsn; pr_headers = hl; pr_ranges = pl } in
-      let dom = if single_ok r then 1 else 0 in
+      let dom = if single_ok r then 1 else if multi_ok r then 2 else 0 in
       let g = lib_generate (ser = "inst") r in
       Printf.printf "G %s | " (hex_of_bytes g);
       (match response_parse g with
